@@ -82,6 +82,14 @@ func fnExprJS(e *sx) string {
 		return "(delete " + a[0].name + ")"
 	case "dlx":
 		return "(delete (" + fnExprJS(a[0]) + "))"
+	case "wp":
+		return a[0].name + ".prototype"
+	case "dac":
+		return "Object.defineProperty(" + fnExprJS(a[0]) + ", " + strconv.Quote(a[1].name) + ", " + AccJS(a[2].name) + ")"
+	case "ops":
+		return "(" + fnExprJS(a[0]) + "." + a[1].name + " += " + fnExprJS(a[2]) + ")"
+	case "inc":
+		return "(" + fnExprJS(a[0]) + "." + a[1].name + "++)"
 	case "pro":
 		return "Object.getPrototypeOf(" + fnExprJS(a[0]) + ")"
 	case "rgx":
